@@ -454,7 +454,7 @@ func bytesOf(s string) string {
 }
 
 // stringLits returns the string literals inside a node, in source order, unquoted.
-func stringLits(n ast.Node) []string {
+func tlsStringLits(n ast.Node) []string {
 	var out []string
 	ast.Inspect(n, func(x ast.Node) bool {
 		if b, ok := x.(*ast.BasicLit); ok && b.Kind == token.STRING {
@@ -484,7 +484,7 @@ func sprintfSuffix(rel, fn string) string {
 	if fd == nil {
 		return ""
 	}
-	lits := stringLits(fd.Body)
+	lits := tlsStringLits(fd.Body)
 	names, _ := callsIn(fd.Body)
 	if len(lits) != 1 || len(names) < 1 || names[0] != "fmt.Sprintf" || !strings.HasPrefix(lits[0], "%s") || strings.Contains(lits[0][2:], "%") {
 		fail("%s: %s is no longer `fmt.Sprintf(\"%%s<suffix>\", id)`", rel, fn)
@@ -525,7 +525,7 @@ func describe(e ast.Expr) string {
 	switch t := e.(type) {
 	case *ast.BasicLit:
 		if t.Kind == token.STRING {
-			if l := stringLits(t); len(l) == 1 {
+			if l := tlsStringLits(t); len(l) == 1 {
 				return "lit:" + l[0]
 			}
 		}
@@ -614,7 +614,7 @@ func genIdentityCtx() {
 	str("v1PublicSuffix", sprintfSuffix(fnRel, "getPublicKeyFilename"), fnRel+": getPublicKeyFilename = name ++")
 	const knRel = "keystore/filesystem/key_names.go"
 	if fd := funcDecl(knRel, "", "getSymmetricKeyName"); fd != nil {
-		l := stringLits(fd.Body)
+		l := tlsStringLits(fd.Body)
 		ok := false
 		if len(l) == 1 && len(fd.Body.List) == 1 {
 			if r, isRet := fd.Body.List[0].(*ast.ReturnStmt); isRet && len(r.Results) == 1 {
@@ -746,7 +746,7 @@ func genIdentityCtx() {
 	parts("keystore/v2/keystore/filesystem/keyStore.go", "KeyStore", "keyRingSignatureContext", "v2RingSignatureContext")
 	for _, p := range []struct{ fn, name string }{{"privateKeyContext", "v2PrivateKeyFormat"}, {"symmetricKeyContext", "v2SymmetricKeyFormat"}} {
 		if fd := funcDecl("keystore/v2/keystore/filesystem/key.go", "KeyRing", p.fn); fd != nil {
-			l := stringLits(fd.Body)
+			l := tlsStringLits(fd.Body)
 			if len(l) != 1 || !strings.HasSuffix(l[0], "%d") || strings.Count(l[0], "%") != 1 {
 				fail("keystore/v2/keystore/filesystem/key.go: %s is no longer Sprintf(\"<text>%%d\", seqnum)", p.fn)
 				continue
@@ -767,7 +767,7 @@ func genIdentityCtx() {
 				for _, s := range gd.Specs {
 					vs := s.(*ast.ValueSpec)
 					if len(vs.Names) == 1 && len(vs.Values) == 1 {
-						if l := stringLits(vs.Values[0]); len(l) == 1 {
+						if l := tlsStringLits(vs.Values[0]); len(l) == 1 {
 							env[vs.Names[0].Name] = l[0]
 						}
 					}
@@ -799,7 +799,7 @@ func genIdentityCtx() {
 				for _, s := range gd.Specs {
 					vs := s.(*ast.ValueSpec)
 					if len(vs.Names) == 1 && vs.Names[0].Name == "dataIDDelim" && len(vs.Values) == 1 {
-						if l := stringLits(vs.Values[0]); len(l) == 1 {
+						if l := tlsStringLits(vs.Values[0]); len(l) == 1 {
 							str("tokenDataIDDelim", l[0], tkRel+": dataIDDelim")
 							found = true
 						}
@@ -821,7 +821,7 @@ func genIdentityCtx() {
 	}
 	for _, p := range []struct{ fn, name string }{{"generateKeyForToken", "tokenKeyPrefix"}, {"generateKeyForHash", "tokenHashKeyPrefix"}} {
 		if fd := funcDecl(tkRel, "pseudoanonymizer", p.fn); fd != nil {
-			l := stringLits(fd.Body)
+			l := tlsStringLits(fd.Body)
 			if len(l) != 1 {
 				fail("%s: %s: expected one literal prefix", tkRel, p.fn)
 				continue
